@@ -35,7 +35,11 @@ def cargo_test(tests, scratch, timeout=1500, extra_env=None, test_timeout=None):
     env["VERIF_DIR"] = VERIF
     env.update(extra_env or {})
     res = {}
-    blanked = _isolate_broken_replay_files(env, scratch, timeout)
+    global _ISOLATED
+    if _ISOLATED is None:
+        _ISOLATED = _isolate_broken_replay_files(env, scratch, timeout)
+        _ISOLATED = (_ISOLATED, env["VERIF_DIR"])
+    blanked, env["VERIF_DIR"] = _ISOLATED
     for t in tests:
         cmd = ["cargo", "test", "--offline", "--lib", "--features", FEATURES, t, "--", "--exact", "--nocapture", "--test-threads", "1"]
         p = subprocess.Popen(cmd, cwd=REPO, env=env, stdout=subprocess.PIPE, stderr=subprocess.STDOUT, text=True, start_new_session=True)
@@ -59,6 +63,9 @@ def cargo_test(tests, scratch, timeout=1500, extra_env=None, test_timeout=None):
         else:
             res[t] = (passed and not failed, " ".join(cmd) + "\n" + out[-4000:])
     return res
+
+
+_ISOLATED = None  # (blanked replay files, VERIF_DIR to build with): decided once per process
 
 
 def _isolate_broken_replay_files(env, scratch, timeout):
@@ -87,7 +94,11 @@ def _isolate_broken_replay_files(env, scratch, timeout):
         if not bad:
             return blanked  # the crate itself does not build (or the error is elsewhere): nothing to isolate
         blanked |= bad
-        alt = os.path.join(scratch, "verif_alt")
+        # a stable place (same path for the same tree and the same set of left-out files): `env!("VERIF_DIR")` is part
+        # of the crate's text, a path that changed from call to call would recompile the crate for every replay
+        import hashlib
+        key = hashlib.md5((os.path.realpath(REPO) + "|" + ",".join(sorted(blanked))).encode()).hexdigest()[:10]
+        alt = os.path.join(os.environ.get("VERIF_ALT_ROOT", "/var/tmp"), "verif-replays-alt-" + key)
         shutil.rmtree(alt, ignore_errors=True)
         os.makedirs(os.path.join(alt, "replays"))
         for f in os.listdir(src):
@@ -95,8 +106,9 @@ def _isolate_broken_replay_files(env, scratch, timeout):
                 continue
             if f in blanked:
                 open(os.path.join(alt, "replays", f), "w").write("// left out: does not compile against the tree under test\n")
+                os.utime(os.path.join(alt, "replays", f), (1, 1))  # fixed mtime: cargo must not see a change on every run
             else:
-                shutil.copy(os.path.join(src, f), os.path.join(alt, "replays", f))
+                shutil.copy2(os.path.join(src, f), os.path.join(alt, "replays", f))  # keeps the mtime
         env["VERIF_DIR"] = alt
     return blanked
 
